@@ -66,7 +66,7 @@ def check(ctx):
     # ---- R1 --------------------------------------------------------------------------
     land = M_.method('land')
     paths = seq_calls(land)
-    fly = [(p, ev) for p, ev in paths if 'self._is_flying' in p.cond_texts(orig=True)]
+    fly = [(p, ev) for p, ev in paths if fact_key('self._is_flying', True) in p.fact_keys()]
     ctx.need(len(fly) == 1, 'MotionCommander.land: flying path not found')
     p, ev = fly[0]
     want = ['self.down(', 'self._thread.stop()', 'self._cf.commander.send_stop_setpoint()', 'self._cf.commander.send_notify_setpoint_stop()', 'self._is_flying = False']
@@ -99,7 +99,7 @@ def check(ctx):
         len(rets) >= 1
     ctx.inst('R1', run, 'terminate-returns-before-sending', ok, 'after the terminate event no further set-point may be sent (run returns)')
     hl = P.method('land')
-    hp = [(p, ev) for p, ev in seq_calls(hl) if 'self._is_flying' in p.cond_texts(orig=True)]
+    hp = [(p, ev) for p, ev in seq_calls(hl) if fact_key('self._is_flying', True) in p.fact_keys()]
     ctx.need(len(hp) == 1, 'PositionHlCommander.land: flying path not found')
     ok, why = order_ok(hp[0][1], ['self._hl_commander.land(landing_height, duration_s)', 'time.sleep(duration_s)', 'self._hl_commander.stop()', 'self._is_flying = False'])
     ctx.inst('R1', hl, 'hl-landing-order', ok, 'land -> wait -> stop -> clear flag (%s)' % why)
